@@ -707,9 +707,11 @@ def pick(r, B, role):
         if c < 0.8:
             return r.randrange(0, 300)
     elif role == "e":
-        if c < 0.6:
+        # large exponents are rare: evaluating f_evm_exp in the extracted model (inductive Z) costs
+        # about a second per 256-bit exponent
+        if c < 0.75:
             return r.choice([0, 1, 2, 3, 4, 5, 7, 8, 16, 31, 32, 255, 256, 257])
-        if c < 0.7:
+        if c < 0.92:
             return r.randrange(0, 64)
     elif role == "d":
         if c < 0.3:
@@ -758,13 +760,14 @@ def gen_l2(tier, r, B):
         roles = ROLES.get(op, "ww")
         for k1 in range(4):
             for k2 in range(4):
-                for _ in range(per if (k1 < 2 and k2 < 2) else max(3, per // 3)):
+                reps = per if (k1 < 2 and k2 < 2) else max(3, per // 3)
+                for _ in range(min(reps, 24) if op == "EXP" else reps):
                     v1 = pick(r, B, "b" if k1 >= 2 else roles[0])
                     v2 = pick(r, B, "b" if k2 >= 2 else roles[1])
                     if op == "EXP" and k1 == 0 and k2 == 0 and exp_work(v1, v2) > WORK_LIMIT_INPROC:
                         v2 = v2 % 4096
                     c = {"lvl": "L2", "op": op, "ops": [[k1, v1], [k2, v2]]}
-                    cases.append(add_valuations(r, B, c, nextra, roles))
+                    cases.append(add_valuations(r, B, c, 2 if op == "EXP" else nextra, roles))
     for op in OPS1:
         for k1 in range(4):
             for _ in range(3 * per if k1 < 2 else 4):
@@ -859,7 +862,7 @@ def gen_l1(tier, r, B):
                     continue
                 for kinds in range(1 << ar):
                     ks = [(kinds >> i) & 1 for i in range(ar)]
-                    for _ in range(per):
+                    for _ in range(min(per, 6) if m == "exp" else per):
                         ops = []
                         for i, k in enumerate(ks):
                             v = pick(r, Bn, roles[i] if i < len(roles) else "w") % (1 << n)
@@ -867,7 +870,7 @@ def gen_l1(tier, r, B):
                         if m == "exp" and ks == [0, 0] and exp_work(ops[0][1], ops[1][1]) > WORK_LIMIT_INPROC:
                             ops[1][1] %= 4096
                         c = {"lvl": "L1", "n": n, "abs": ab, "op": m, "ops": ops}
-                        cases.append(add_valuations(r, Bn, c, nextra, roles + "www", n))
+                        cases.append(add_valuations(r, Bn, c, 2 if m == "exp" else nextra, roles + "www", n))
     return cases
 
 
@@ -1222,7 +1225,7 @@ def run(rep, tier):
                 spans.append((len(calls), len(cs)))
                 calls += cs
             try:
-                res = model.parallel_batch(calls, timeout=3000)
+                res = model.parallel_batch(calls, timeout=600 if tier == "quick" else 3000)
                 model_res = [model_obs(c, res[s:s + n]) if n else None for c, (s, n) in zip(batch, spans)]
                 n_model_checked += len(batch)
             except Exception as e:  # noqa: BLE001
